@@ -697,6 +697,19 @@ func (c *Ctx) freshSliceResult(fn *types.Func, k int) bool {
 			return true
 		}
 		q := a.sliceProvOf(rs.Results[k], 0)
+		if q.borrowed && !q.unknown && !q.otherField && len(q.owners) > 0 {
+			// the cells of a value this very function allocated (`v = Array(…); return v, seqCells(v)`):
+			// as fresh as the value
+			all := true
+			for _, ow := range q.owners {
+				if a.lvalKind(ow, 0) != ownFresh {
+					all = false
+				}
+			}
+			if all {
+				return true
+			}
+		}
 		if !q.fresh || q.borrowed || q.unknown || q.otherField {
 			ok = false
 		}
